@@ -6,7 +6,7 @@ def U(unit, obligations, tier="quick", timeout=600):
 
 
 FLOAT_IDEAL = "idealised-real float semantics (machine arithmetic treated as mathematical) where stated per unit"
-WF_GAME = "wf_game (infoset indices in range, weight vectors as long as child lists) as established by Game::from_root: assumed, C11 is not applicable"
+WF_GAME = "wf_game (infoset indices in range, weight vectors as long as child lists) as established by Game::from_root: assumed: C11 decides the rule checks of from_root per node only, not the tables it builds"
 
 PROPS = {
     "C01": dict(
@@ -202,6 +202,28 @@ PROPS = {
         trusted_base=[FLOAT_IDEAL, "rand::Rng::gen, rand_distr::WeightedAliasIndex (assumed contracts)"],
         not_decided=["statistical correctness of the alias sampler", "external::thread_threshold's work-list loop around next_nodes (that the frontier is a cut of the sampled tree, each node once)"],
     ),
+    "C11": dict(
+        level="proof",
+        technique="Verus contracts on the rule checks of the real Game::init_recurse, extracted each run as stand-alone blocks (terminal arm, chance-outcome loop body, the seen-before / new-infoset arms, the multi-action decision arm)",
+        level_text="Deductive proof (any tree, any node) of the per-node rule checks of game construction: a leaf is accepted exactly "
+                   "when its payoff is finite; a chance outcome exactly when its weight is positive and finite (else NonPositiveChance, "
+                   "subtree not built), recorded with its subtree in order; a chance node of a known infoset must carry the same "
+                   "normalised probabilities (else ProbabilitiesNotEqual); a decision node of a known infoset the same actions in the "
+                   "same order (else ActionsNotEqual) and the same previous infoset of that player (else ImperfectRecall); a new "
+                   "infoset pairwise distinct actions (else ActionsNotUnique) and is recorded with this player's previous infoset; "
+                   "the subtrees below a multi-action decision node are built with exactly this player's memory updated. Partial: see note.",
+        level_note="Per-node checks only, with the recursive call and the IndexMap / HashMap / HashSet tables bound to uninterpreted "
+                   "functions / assumed contracts. NOT decided: the EmptyChance / EmptyPlayer dispatch on the number of children, the "
+                   "single-action arm (its HashMap entry code), renormalisation of chance weights, the composition over the tree "
+                   "('succeeds if and only if'), 'never panics', from_root's final conversion of the builders.",
+        verus=[U("c11_init_recurse", ["C11.V.init_recurse.terminal_finite", "C11.V.init_recurse.chance_weight", "C11.V.init_recurse.chance_outcome_kept",
+                                       "C11.V.init_recurse.same_probabilities", "C11.V.init_recurse.same_actions", "C11.V.init_recurse.perfect_recall",
+                                       "C11.V.init_recurse.distinct_actions", "C11.V.init_recurse.records_infoset", "C11.V.init_recurse.recall_bookkeeping"])],
+        kani_functions=[],
+        trusted_base=["uninterpreted float semantics + IEEE classification facts (Kani harness ieee_classification)",
+                      "assumed contracts on compact::{OccupiedEntry, VacantEntry} (IndexMap), slice comparison, HashSet::len of collected references"],
+        not_decided=["composition over the tree (succeeds iff every node satisfies every rule)", "EmptyChance / EmptyPlayer / single-action arm", "never panics", "chance weight renormalisation"],
+    ),
     "C13": dict(
         level="proof",
         technique="Verus contracts + representation invariant on NamedStrategyIter::{new,next,size_hint} extracted from /repo each run",
@@ -280,13 +302,12 @@ PROPS = {
     ),
 }
 
-KANI_PROPS = ["C01", "C02", "C05", "C06", "C08", "C09", "C10", "C13", "C14", "C18", "C19"]
+KANI_PROPS = ["C01", "C02", "C05", "C06", "C08", "C09", "C10", "C11", "C13", "C14", "C18", "C19"]
 
 NOT_APPLICABLE = {
     "C03": "analytic convergence-rate theorem over unbounded float histories; no per-call contract expresses it",
     "C04": "probabilistic convergence; neither Verus nor Kani has a probability semantics",
-    "C11": "from_root recursion through IndexMap/HashMap/HashSet entry APIs is outside both tools (Kani times out on a 5-node tree, Verus cannot specify the crates in single-file mode)",
-    "C12": "relational property over two constructions and two whole solves; needs C11 plus whole-solver functional correctness",
+    "C12": "relational property over two constructions and two whole solves; needs whole-tree construction (C11 is decided per node only) plus whole-solver functional correctness",
     "C15": "process-level output of the binary; logic inline in main() behind clap/serde/gambit-parser",
     "C16": "option plumbing inline in main(); process-level behaviour",
     "C17": "exit status / stderr of a process; not a property of one call",
